@@ -221,7 +221,17 @@ func (x *Exec) load(st *State, p *Pointer, t types.Type) *Value {
 		return v
 	}
 	srt := x.sortOf(t)
-	return x.typed(t, x.loadRaw(st, p, srt, t))
+	tm := x.loadRaw(st, p, srt, t)
+	v := x.typed(t, tm)
+	// whatever is read from memory now exists now
+	if x.allocSeen == nil {
+		x.allocSeen = map[[2]*Term]bool{}
+	}
+	if !x.allocSeen[[2]*Term{tm, st.allocTop()}] && (tm.Op == "select" || tm.Op == "var") {
+		x.allocSeen[[2]*Term{tm, st.allocTop()}] = true
+		x.assumeAllocated(st, t, tm)
+	}
+	return v
 }
 
 func (x *Exec) locKey(p *Pointer, srt *Sort, t types.Type) (string, *Sort) {
